@@ -318,3 +318,9 @@ def symbolic_hyperparams(ex, P, cls: ClassInfo, overrides=None):
 
 def ok_paths(paths):
     return [p for p in paths if p.outcome == "return"]
+
+
+def is_data_src(src: str) -> bool:
+    """call-site source text of an argument that hands the (normalised) data matrix to a driver"""
+    s = src.strip()
+    return s == "X" or s.endswith(".values") or s.endswith(".to_numpy()") or (s.startswith(("np.asarray(", "np.array(")) and "X" in s)
